@@ -19,7 +19,8 @@ ATTR_VALUES = ['', 'x', 'x y', 'en', 'en-US', 'de-DE-1996', 'a-b', 'a b c', 'X',
                'é', 'http://e/x', '#frag', 'x\ty', '-', 'abc', 'ABC', 'ab', 'bc', 'say "hi"', "it's'", '"', "'", 'a\\']
 GENERIC_ATTRS = ['title', 'href', 'data-x', 'lang', 'dir', 'TITLE', 'rel', 'name', 'hidden', 'contenteditable', 'kind']
 INPUT_TYPES = ['text', 'checkbox', 'radio', 'submit', 'hidden', 'number', 'range', 'date', 'month', 'week', 'time',
-               'datetime-local', 'tel', 'email', 'url', 'search', 'password', 'button', '', 'TEXT', 'Radio', 'bogus']
+               'datetime-local', 'tel', 'email', 'url', 'search', 'password', 'button', '', 'TEXT', 'Radio', 'bogus',
+               'image', 'Image', 'reset', 'file', 'color']
 
 
 class TGen:
@@ -108,7 +109,12 @@ class TGen:
                 radios.append(('e', 'input', ra, []))
             return ('e', self.pick(['div', 'p', 'span']), {}, radios)
         if kind == 'submit':
-            return ('e', self.pick(['input', 'button']), {'type': self.pick(['submit', 'SUBMIT', 'submit'])}, [])
+            sub = ('e', self.pick(['input', 'button']), {'type': self.pick(['submit', 'SUBMIT', 'submit'])}, [])
+            if r.random() < 0.3:
+                # controls that look like submit buttons but are not the ones :default is defined by, before the real one
+                decoy = ('e', 'input', {'type': self.pick(['image', 'IMAGE', 'reset', 'button', 'submit '])}, [])
+                return ('e', self.pick(['span', 'p', 'div']), {}, [decoy, sub])
+            return sub
         if kind == 'input':
             if r.random() < 0.9:
                 a['type'] = self.pick(INPUT_TYPES)
